@@ -72,6 +72,10 @@ func main() {
 				skips = strings.Split(strings.TrimPrefix(a, "--skip="), ",")
 			case strings.HasPrefix(a, "--only="):
 				fmt.Sscanf(strings.TrimPrefix(a, "--only="), "%d:%d", &onlySub, &onlyIdx)
+			case strings.HasPrefix(a, "--upto="):
+				var us, ui int
+				fmt.Sscanf(strings.TrimPrefix(a, "--upto="), "%d:%d", &us, &ui)
+				core.SetUpto(us, ui)
 			case strings.HasPrefix(a, "--deadline="):
 				u, _ := strconv.ParseInt(strings.TrimPrefix(a, "--deadline="), 10, 64)
 				deadline = time.Unix(u, 0)
